@@ -144,7 +144,16 @@ class Request(RawRequest):
             else:
                 self.resource_path = url_info.path
         else:
-            self.resource_path = url_info.url
+            # Absolute form for a proxy. User name and password of the URL
+            # are not part of the request target (RFC 7230 section 2.7.1).
+            if url_info.query:
+                self.resource_path = '{0}://{1}{2}?{3}'.format(
+                    url_info.scheme, url_info.hostname_with_port,
+                    url_info.path, url_info.query)
+            else:
+                self.resource_path = '{0}://{1}{2}'.format(
+                    url_info.scheme, url_info.hostname_with_port,
+                    url_info.path)
 
     def parse(self, data):
         super().parse(data)
